@@ -262,6 +262,12 @@ def parse_statement(lexer, toplevel=False):
                             )
                         if lexer.peekn(1, ";", "interpunction"):
                             lexer.match(";", "interpunction")
+                    else:
+                        token = lexer.next()
+                        raise CklSyntaxError(
+                            f"Expected def or end but got '{token}'",
+                            token.pos
+                        )
                 lexer.match("end", "keyword")
                 return result
             else:
